@@ -39,7 +39,11 @@ CLAIM = dict(
           "context; C01_string_reencode - TokString.code of any byte string is read back to the same bytes; "
           "C01_minify_total; C01_end_to_end / C01_holds_all - composed with the lexer worker's lex_agrees_code (C07): for every "
           "byte string, lexer model then writer model, holds_C01 is true of the output - no hypothesis about the lexer left "
-          "(single chunk). Full statement proved after the fix: commit for S1 (token gluing). Tie: pinned "
+          "(single chunk); C01_lines / C01_lines_total / C01_end_to_end_chunks / C01_luamin_preserves_chunks / "
+          "C01_stats_count_chunks / C01_identifiers_C02_chunks - the same for the source as per-line chunks (how the .p8 "
+          "reader and Lua.from_lines feed the lexer; by C07_chunking), C01_end_to_end_chunk_ok for any chunk list the lexer "
+          "reads as the joined text (build's prepended lines incl. a separate newline line), C01_cart_text for the __lua__ "
+          "text of the written cart. Full statement proved after the fix: commit for S1 (token gluing). Tie: pinned "
           "sources, correspondence of lexer model + writer model with the real writer on the adjacency enumerator (all "
           "ordered pairs of token representatives incl. every symbol of the regenerated table), generated programs x "
           "layouts x configurations, `p8tool luamin` and `build --lua-minify`; the extracted holds_C01 (reference tokenizer "
